@@ -298,6 +298,21 @@ def strip_generics(path):
     return ''.join(out)
 
 
+_ALLOC_MARKERS = ('vec::Vec', 'boxed::Box', 'string::String')
+
+
+def normalise_alloc(txt):
+    """In no_std configurations rustc prints alloc items through whatever path the crate links the `alloc` crate under: its own
+    `pub mod alloc` re-export (`alloc::alloc::vec::Vec`) or a renamed `extern crate alloc as <name>` (`<name>::vec::Vec`). Both are
+    normalised to the names used in std builds. A renamed link is recognised by being the top-level prefix of all of Vec, Box and String."""
+    txt = txt.replace('alloc::alloc::', 'std::')
+    cands = set(re.findall(r'(?<![A-Za-z0-9_:])([a-z_][a-z0-9_]*)::vec::Vec\b', txt)) - {'std', 'alloc', 'core'}
+    for x in sorted(cands):
+        if all(re.search(r'(?<![A-Za-z0-9_:])%s::%s\b' % (re.escape(x), m), txt) for m in _ALLOC_MARKERS):
+            txt = re.sub(r'(?<![A-Za-z0-9_:])%s::' % re.escape(x), 'std::', txt)
+    return txt
+
+
 class Facts:
     def resolve_flags(self):
         """For every bool field of the reference tree that is a two-variant enum now (names.detect): which variant stands for `true`
@@ -371,7 +386,7 @@ class Facts:
             txt = f.read()
         # in no_std configurations rustc prints alloc items through the crate's own `pub mod alloc`
         # re-export (`alloc::alloc::vec::Vec`); normalise to the names used in std builds
-        txt = txt.replace('alloc::alloc::', 'std::')
+        txt = normalise_alloc(txt)
         # items renamed since the reference tree are mapped back to their reference names (names.py)
         self.renames, self.rename_log = tree_renames()
         if self.renames:
@@ -673,7 +688,7 @@ def tree_renames():
         raws = []
         for crate in ('unimock', 'unimock_macros'):
             with open(raw_path('std', crate)) as f:
-                raws.append(f.read().replace('alloc::alloc::', 'std::'))
+                raws.append(normalise_alloc(f.read()))
         _renames[th] = names.renames_for(raws[0], raws[1])
     except FactsError:
         raise
